@@ -226,6 +226,10 @@ def check_bundle_pkt(pkt, t, lat, els, rid, offset, viol, where, stats):
                 f'{(pkt.timetag - want) * TICK:+.9f} s away from logical '
                 f'time {t} + latency {lat}')
     stats['bundles-checked'] = stats.get('bundles-checked', 0) + 1
+    if not immediate(lat) and (t + lat) % 1.0 > 1 - 2.0 ** -33:
+        k = 'timetag-fraction-rounds-up-' + \
+            ('odd' if int(t + lat) % 2 else 'even') + '-second'
+        stats[k] = stats.get(k, 0) + 1
     if len(pkt.elements) != len(els):
         viol.add('C07-3', f'{where}-element-count',
                  f'{where}: {len(pkt.elements)} elements on the wire, '
